@@ -17,6 +17,7 @@ CONSTANTS
   Horizon = 400
   Fx <- FxNoF
   Assume = FALSE
+  CancelAts = {}
 INVARIANT NoViolation
 INVARIANT NoHang
 INVARIANT TimeBounded
